@@ -4,6 +4,7 @@ import math
 from fractions import Fraction
 from lib.core import *
 from gen import c15_dimchecks
+from gen import c15_members
 
 ID = "C15"
 PROPS_FILES = ["Gama/Props/C15.lean"]
@@ -60,6 +61,13 @@ KNOWN = {
 # ----------------------------------------------------------------------------- translator (guards)
 
 def translate(ctx):
+    try:
+        if c15_members.run(ctx.repo, ctx.lean / "Gama" / "Gen" / "MatMembers.lean"):
+            ctx.log("Gen/MatMembers.lean regenerated (content changed)")
+    except c15_members.Unparsable as e:
+        raise TieBroken("tools/gen/c15_members.py", str(e))
+    except OSError as e:
+        raise TieBroken("tools/gen/c15_members.py", "cannot read source: " + str(e))
     try:
         if c15_dimchecks.run(ctx.repo, ctx.lean / "Gama" / "Gen" / "DimChecks.lean"):
             ctx.log("Gen/DimChecks.lean regenerated (content changed)")
@@ -336,6 +344,175 @@ def parse_dump(line):
     live = int(head[1].split("=")[1])
     ub = int(head[2].split("=")[1])
     return live, ub, [None if p == "-" else p for p in parts[1:]]
+
+
+# ----------------------------------------------------------------------------- object histories with invert
+#
+# `Mat::invert()` works in place through the raw member pointer `pentry`; a `Mat` is copied memberwise.
+# The scripts below put `m.invert` INSIDE copy / assign chains between objects of equal and of different
+# sizes and follow every object's VALUE with exact rationals (value semantics: a copy is independent, an
+# operation changes its target only, `invert` is the matrix inverse).  expect[k] is what line k must answer:
+#   "ok" | "throw BadRank" | "throw Singular" | {slot: (rows, cols, [Fraction…])} for an `m.dump`.
+
+INV_TOL = 1e-9
+
+
+class MatSim:
+    def __init__(self, rng):
+        self.rng, self.live, self.ops, self.expect = rng, {}, [], []
+        self.tags = set()
+        self.inverted = set()      # slots whose object was inverted (or copied from such an object) — for the tags only
+
+    def emit(self, line, exp="ok"):
+        self.ops.append(line); self.expect.append(exp)
+
+    def free(self):
+        return [i for i in range(8) if i not in self.live]
+
+    def ctor(self, i, r, c, vals=None, wellcond=True):
+        self.emit(f"m.ctor {i} {r} {c}")
+        if vals is None:
+            vals = [[Fraction(self.rng.randint(-3, 3)) + (Fraction(4 * max(r, c)) if (wellcond and a == b) else 0)
+                     for b in range(c)] for a in range(r)]
+        self.live[i] = (r, c, [v for row in vals for v in row])
+        for a in range(r):
+            for b in range(c):
+                self.emit(f"m.set {i} {a + 1} {b + 1} {H(float(vals[a][b]))}")
+        self.inverted.discard(i)
+
+    def copy(self, i, j, how="copy"):
+        self.emit(f"m.{how} {i} {j}")
+        self.live[i] = self.live[j]
+        if j in self.inverted:
+            self.inverted.add(i); self.tags.add("copy_of_inverted")
+        else:
+            self.inverted.discard(i)
+
+    def assign(self, i, j, how="assign"):
+        self.emit(f"m.{how} {i} {j}")
+        if len(self.live[i][2]) != len(self.live[j][2]):
+            self.tags.add("assign_different_sizes" + ("_from_inverted" if j in self.inverted else ""))
+        if i != j:
+            if i in self.inverted and j not in self.inverted:
+                self.tags.add("assign_from_never_inverted")
+            self.live[i] = self.live[j]
+            if j in self.inverted:
+                self.inverted.add(i); self.tags.add("copy_of_inverted")
+            else:
+                self.inverted.discard(i)
+
+    def invert(self, i):
+        r, c, d = self.live[i]
+        line = f"m.invert {i} {H(INV_TOL)}"
+        if r != c:
+            self.emit(line, "throw BadRank"); self.tags.add("badrank")
+            return
+        A = [d[a * c:(a + 1) * c] for a in range(r)]
+        if r and det(A) == 0:
+            self.emit(line, "throw Singular"); self.tags.add("singular")
+            v = self.rng.randint(1, 5)                      # the C++ object is left half eliminated: define it again
+            self.emit(f"m.fill {i} {H(v)}")
+            self.live[i] = (r, c, [Fraction(v)] * (r * c))
+            return
+        X = inv_exact(A) if r else []
+        self.emit(line)
+        if i in self.inverted:
+            self.tags.add("second_inversion")
+        self.live[i] = (r, c, [v for row in X for v in row])
+        self.inverted.add(i)
+
+    def transpose(self, i):
+        r, c, d = self.live[i]
+        self.emit(f"m.transpose {i}")
+        self.live[i] = (c, r, [d[a * c + b] for b in range(c) for a in range(r)])
+        self.inverted.discard(i)                            # the temporary's pentry (nullptr) is assigned
+
+    def scale(self, i, f):
+        r, c, d = self.live[i]
+        self.emit(f"m.scale {i} {H(float(f))}")
+        self.live[i] = (r, c, [v * f for v in d])
+
+    def setel(self, i):
+        r, c, d = self.live[i]
+        if r * c == 0:
+            return
+        a, b = self.rng.randrange(r), self.rng.randrange(c)
+        v = Fraction(self.rng.randint(-9, 9)) + (Fraction(4 * max(r, c)) if a == b else 0)
+        self.emit(f"m.set {i} {a + 1} {b + 1} {H(float(v))}")
+        d = list(d); d[a * c + b] = v
+        self.live[i] = (r, c, d)
+
+    def dtor(self, i):
+        self.emit(f"m.dtor {i}")
+        del self.live[i]; self.inverted.discard(i)
+
+    def dump(self):
+        self.emit("m.dump", dict(self.live))
+
+
+def inv_chain_scripts(rng):
+    """the fixed chains, for every size 1..3 and every pair of sizes"""
+    out = []
+    for n in (1, 2, 3):
+        s = MatSim(rng); s.ctor(0, n, n); s.invert(0); s.copy(1, 0); s.invert(1); s.dump()        # A.invert(); B = copy A; B.invert()
+        s.invert(0); s.dump(); out.append(s)
+        s = MatSim(rng); s.ctor(0, n, n); s.copy(1, 0); s.invert(1); s.copy(2, 1, "move"); s.invert(2); s.dump()   # inv(inv(A))
+        out.append(s)
+        s = MatSim(rng); s.ctor(0, n, n); s.ctor(1, n, n); s.invert(0); s.assign(1, 0); s.invert(1); s.dump()     # same size
+        s.setel(1); s.dump(); s.setel(0); s.dump(); out.append(s)
+        s = MatSim(rng); s.ctor(0, n, n); s.ctor(1, n, n); s.invert(0); s.copy(2, 0); s.assign(2, 1); s.invert(2); s.dump()   # never-inverted in between
+        s.invert(0); s.assign(0, 1, "massign"); s.invert(0); s.dump(); out.append(s)
+        s = MatSim(rng); s.ctor(0, n, n); s.invert(0); s.copy(1, 0); s.transpose(1); s.invert(1); s.dump(); out.append(s)
+        s = MatSim(rng); s.ctor(0, n, n); s.invert(0); s.copy(1, 0); s.scale(1, Fraction(2)); s.invert(1); s.dump(); out.append(s)
+        for k, l in ((1, 1), (2, 2), (3, 3), (2, 3), (0, 0), (1, 3)):
+            if (k, l) == (n, n):
+                continue
+            s = MatSim(rng); s.ctor(0, n, n); s.invert(0); s.ctor(1, k, l); s.assign(1, 0); s.dump(); s.invert(1); s.dump()   # X(k,l) = Y(n,n) inverted
+            out.append(s)
+            s = MatSim(rng); s.ctor(0, n, n); s.invert(0); s.copy(2, 0); s.ctor(1, k, l); s.assign(2, 1); s.dump(); s.invert(2); s.dump()
+            out.append(s)
+    return out
+
+
+def gen_inv_script(rng, maxlen):
+    s = MatSim(rng)
+    for _ in range(rng.randint(4, maxlen)):
+        alive, dead = sorted(s.live), s.free()
+        r = rng.random()
+        if (r < 0.18 or not alive) and dead:
+            i = rng.choice(dead)
+            n = rng.choice([1, 2, 2, 3, 3])
+            if rng.random() < 0.15:
+                s.ctor(i, rng.randint(0, 3), rng.randint(0, 3))                                   # any shape
+            elif rng.random() < 0.15 and n >= 2:
+                A = [[Fraction(rng.randint(-2, 2)) for _ in range(n)] for _ in range(n)]        # exactly singular
+                A[n - 1] = [a + b for a, b in zip(A[0], A[1 % n])] if n >= 3 else list(A[0])
+                s.ctor(i, n, n, vals=A)
+            else:
+                s.ctor(i, n, n)
+        elif r < 0.32 and dead and alive:
+            s.copy(rng.choice(dead), rng.choice(alive), rng.choice(["copy", "move"]))
+        elif r < 0.50 and len(alive) >= 1:
+            s.assign(rng.choice(alive), rng.choice(alive), rng.choice(["assign", "assign", "massign"]))
+        elif r < 0.78 and alive:
+            s.invert(rng.choice(alive))
+        elif r < 0.83 and alive:
+            s.transpose(rng.choice(alive))
+        elif r < 0.87 and alive:
+            s.scale(rng.choice(alive), rng.choice([Fraction(2), Fraction(-1), Fraction(1, 2)]))
+        elif r < 0.93 and alive:
+            s.setel(rng.choice(alive))
+        elif alive:
+            s.dtor(rng.choice(alive))
+        if rng.random() < 0.35:
+            s.dump()
+    s.dump()
+    return s
+
+
+def dump_values(slot_text):
+    t = slot_text.split()
+    return int(t[0]), int(t[1]), t[2:]
 
 
 # ----------------------------------------------------------------------------- algebra
@@ -630,6 +807,13 @@ def correspond(ctx, corr):
             ops, mixed = gen_script(rng, kind, ctx.size(30, 80))
             cases.append((ops, ("script", kind, mixed)))
 
+    # 1b. Mat object histories with invert inside copy / assign chains (value semantics, exact rationals)
+    for sim in inv_chain_scripts(rng):
+        cases.append((sim.ops, ("invscript", sim.expect, sim.tags, "chain")))
+    for _ in range(ctx.size(150, 3000)):
+        sim = gen_inv_script(rng, ctx.size(24, 60))
+        cases.append((sim.ops, ("invscript", sim.expect, sim.tags, "random")))
+
     # 2. algebra: all dimension pairs, entries from {-1,0,1,2} -------------------
     N = ctx.size(3, 4)
     alg = []         # (name, sig, ops)
@@ -883,6 +1067,62 @@ def correspond(ctx, corr):
                     corr.fail("copy is not independent of its source", {"stream": "script", "ops": ls}, "MemRep::operator=", str(dumps))
             if dumps:
                 corr.maxstat("max_leaked_blocks_in_a_script", max(d[0] for d in dumps) - sum(1 for s in dumps[-1][2] if s))
+            continue
+        if kind == "invscript":
+            expect, tags = meta[1], meta[2]
+            interesting = "copy_of_inverted" in tags and "second_inversion" in tags
+            corr.case(key="\n".join(ls) if interesting else None,
+                      sample={"script": ls[:12], "impl": out[:4]} if ci % 41 == 0 else None)
+            corr.count("invscript_cases")
+            for tg in tags:
+                corr.count("invscript_" + tg)
+            payload = {"stream": "invscript", "ops": ls}
+            if crashed:
+                corr.fail("Mat object history with invert aborted under the sanitizers", payload, "Mat::invert/history", crashes[ci][1])
+                continue
+            agree = len(out) == len(mrat[ci]) == len(mflt[ci]) and \
+                all(lines_equal(a, b, rtol=1e-9, atol=1e-12) for a, b in zip(out, mrat[ci])) and \
+                all(lines_equal(a, b, rtol=1e-9, atol=1e-12) for a, b in zip(out, mflt[ci]))
+            if not agree:
+                corr.disagree("invscript", ls, out, mrat[ci])
+            # oracle: value semantics with exact rationals, on the implementation AND exactly on the Rat model
+            problem = None
+            for who, lines_, exact in (("implementation", out, False), ("model", mrat[ci], True)):
+                if len(lines_) != len(expect):
+                    problem = problem or (who, len(lines_) - 1, "script stopped")
+                    continue
+                for li, (got, exp) in enumerate(zip(lines_, expect)):
+                    if isinstance(exp, str):
+                        if got != exp:
+                            problem = problem or (who, li, f"answered {got!r}, value semantics says {exp!r}")
+                            break
+                        continue
+                    try:
+                        live_, ub_, slots = parse_dump(got)
+                        for sl in range(8):
+                            if (slots[sl] is None) != (sl not in exp):
+                                raise ValueError(f"slot {sl} liveness")
+                            if sl in exp:
+                                r_, c_, toks = dump_values(slots[sl])
+                                er, ec, ed = exp[sl]
+                                if (r_, c_) != (er, ec) or len(toks) != len(ed):
+                                    raise ValueError(f"slot {sl}: shape {r_}x{c_}, expected {er}x{ec}")
+                                for tk, q in zip(toks, ed):
+                                    v = F(tk)
+                                    if (v != q) if exact else (abs(v - q) > Fraction(1, 10**9) * (1 + abs(q))):
+                                        raise ValueError(f"slot {sl}: holds {float(v)!r}, value semantics says {float(q)!r} "
+                                                         f"(objects: {', '.join(str(k) for k in sorted(exp))})")
+                        if ub_:
+                            raise ValueError("memcpy with a null pointer")
+                    except ValueError as e:
+                        problem = problem or (who, li, str(e))
+                        break
+            if problem and problem[0] == "implementation":
+                corr.fail("an object's value after a copy/assign/invert history is not the value computed by value semantics "
+                          "(copies are not independent of their source / inv(A) is not the inverse)",
+                          payload, "Mat::invert/history", f"line {problem[1]} `{ls[problem[1]] if problem[1] < len(ls) else ''}`: {problem[2]}")
+            elif problem:
+                corr.disagree("invscript-model-vs-value-semantics", ls, [str(problem)], mrat[ci][:problem[1] + 1][-3:])
             continue
         if kind == "alg":
             items = meta[1]
@@ -1196,6 +1436,10 @@ def correspond(ctx, corr):
         if not any(c[3].endswith(want) for c in pinv_meta):
             corr.inconclusive.append(f"no {want} matrix went through the SVD certificate")
 
+    for tg, least in (("copy_of_inverted", 60), ("second_inversion", 60), ("assign_different_sizes_from_inverted", 15),
+                      ("assign_from_never_inverted", 15), ("singular", 5), ("badrank", 5)):
+        if corr.stats.get("invscript_" + tg, 0) < least:
+            corr.inconclusive.append(f"fewer than {least} Mat histories with invert tagged {tg}")
     n_mixed = sum(1 for c in cases if c[1][0] == "script" and c[1][2])
     corr.count("scripts_with_assignment_between_different_sizes", n_mixed)
     if n_mixed < 0.3 * sum(1 for c in cases if c[1][0] == "script"):
